@@ -169,11 +169,9 @@ theorem tie_loop_up2 (τ : Rat) : ∀ (n : Nat) (s e : Rat),
   | 0, s, e => rfl
   | n + 1, s, e => by
     unfold Gen.make_valid_orientation_interval.loop2 upLoop2
-    by_cases h : s < -τ ∨ s < -τ
-    · have : (decide (s < -τ) || decide (s < -τ)) = true := by simpa using h
-      simp only [this, if_true, h, tie_loop_up2 τ n]
-    · have hs : ¬ s < -τ := fun hc => h (Or.inl hc)
-      simp [hs]
+    by_cases h : s < -τ
+    · simp [h, tie_loop_up2 τ n]
+    · simp [h]
 
 theorem tie_make_valid_interval (τ s e : Rat) :
     Gen.make_valid_orientation_interval τ ((fuelFor τ s + fuelFor τ e) + (fuelFor τ s + fuelFor τ e)) s e
